@@ -91,6 +91,9 @@ def handleRun (j : Json) : Except String Json := do
   match precheckWith repaired circ psi0 shots device nqubit with
   | .error e => pure (jErr (errName e))
   | .ok lm =>
+    match preprocessCheck lm nqubit with
+    | .error e => pure (jErr (errName e))
+    | .ok () =>
     match j.getObjVal? "probs" with
     | .ok (.arr a) =>
       let probs ← a.toList.mapM floatOfJson
